@@ -152,7 +152,7 @@ func c01Pair(c *Ctx) *RuleResult {
 	r := &RuleResult{Rule: "C01.pair", Floor: 4,
 		Doc: "mirror invariants are written on both sides together: every store w.currentTask = t is matched in the same function by t.currentWorker = w (and = nil by = nil); every insertion t.operations[i] = o is matched by o.invocation = i (or o is built with invocation: i), each on exactly the same paths"}
 	p := c.P
-	units := p.Units(schedPkg)
+	units := p.UnitsIn(schedPkg)
 	ct := p.LookupField(schedPkg, "worker", "currentTask")
 	cw := p.LookupField(schedPkg, "task", "currentWorker")
 	ops := p.LookupField(schedPkg, "task", "operations")
@@ -244,7 +244,7 @@ func c01Dispatch(c *Ctx) *RuleResult {
 	p := c.P
 	ct := p.LookupField(schedPkg, "worker", "currentTask")
 	ds := p.LookupField(schedPkg, "task", "desiredState")
-	for _, u := range p.Units(schedPkg) {
+	for _, u := range p.UnitsIn(schedPkg) {
 		info := u.Info()
 		ast.Inspect(u.Decl.Body, func(n ast.Node) bool {
 			cl, ok := n.(*ast.CompositeLit)
@@ -308,6 +308,9 @@ func resolveLocalAlias(u *FuncUnit, e ast.Expr) ast.Expr {
 					count++
 					if len(as.Lhs) == len(as.Rhs) {
 						rhs = as.Rhs[i]
+					} else if len(as.Rhs) == 1 && i == 0 {
+						// v, err := f(...): the first result of the call
+						rhs = as.Rhs[0]
 					}
 				}
 			}
@@ -324,7 +327,7 @@ func c01Complete(c *Ctx) *RuleResult {
 	r := &RuleResult{Rule: "C01.complete", Floor: 1,
 		Doc: "in the function that records a task's final response, that store is dominated by clearing both sides of the worker<->task link and by the loop that takes the task out of every invocation's executing count; a task completed while queued is first unqueued through the regular assignment path"}
 	p := c.P
-	units := p.Units(schedPkg)
+	units := p.UnitsIn(schedPkg)
 	resp := p.LookupField(schedPkg, "task", "executeResponse")
 	ct := p.LookupField(schedPkg, "worker", "currentTask")
 	cw := p.LookupField(schedPkg, "task", "currentWorker")
@@ -376,7 +379,7 @@ func c01Identity(c *Ctx) *RuleResult {
 	r := &RuleResult{Rule: "C01.identity", Floor: 1,
 		Doc: "a worker's report is only applied to its task when the reported action digest equals the assigned task's digest: every call task.complete(..., completedByWorker=true) and every 'no change' response is guarded by a predicate whose result is proto.Equal(reported digest, currentTask.desiredState.ActionDigest), false when there is no current task"}
 	p := c.P
-	units := p.Units(schedPkg)
+	units := p.UnitsIn(schedPkg)
 	complete := p.LookupFunc(schedPkg, "task.complete")
 	actionDigest := types.Object(nil)
 	_ = actionDigest
@@ -485,7 +488,7 @@ func c01Sentinel(c *Ctx) *RuleResult {
 		}
 		return v, true
 	}
-	for _, u := range p.Units(schedPkg) {
+	for _, u := range p.UnitsIn(schedPkg) {
 		info := u.Info()
 		// parameters named after the index also count when the callee compares them: heapMaybeFix(h, i int)
 		ast.Inspect(u.Decl.Body, func(n ast.Node) bool {
